@@ -65,6 +65,9 @@ type world struct {
 	mgr     []string // manager-call trace of the hold under observation (traceHold), one line per event
 	smgr    map[string][]string // per observed lock name (traceNames): header, then one line per event
 	thist   []string            // per observed lock name: the Lock/TryLock/Unlock calls as a history for the threaded model M1t
+	cev     []string            // crash templates: manager calls, file-image changes and answers as a history for M7 (driver lincrash)
+	cpair   map[string]int      // "name/key" -> pair number of that history
+	cempty  bool                // the file image was empty at the last snapshot
 	reqCancel map[string]context.CancelFunc // per-request contexts (newReq / lockReq) by label
 	reqCtx    map[string]context.Context
 }
@@ -203,6 +206,25 @@ func (w *world) end(c *call, ok bool, key string, err error) {
 	if key != "" {
 		c.Key = key
 	}
+	if w.cev != nil && ok {
+		switch c.Kind {
+		case "trylock", "lock":
+			w.cev = append(w.cev, fmt.Sprintf("ack grant %d", w.pairLocked(c.Name, c.Key)))
+		case "unlock":
+			w.cev = append(w.cev, fmt.Sprintf("ack release %d", w.pairLocked(c.Name, c.Key)))
+		}
+	}
+}
+
+// pairLocked numbers the (name, key) pairs of the M7 history by first appearance (w.mu held)
+func (w *world) pairLocked(name, key string) int {
+	k := name + "/" + key
+	if n, ok := w.cpair[k]; ok {
+		return n
+	}
+	n := len(w.cpair)
+	w.cpair[k] = n
+	return n
 }
 
 func (w *world) tryLock(th, sid, name string, size, lt *int32, label string) {
@@ -396,6 +418,42 @@ func (w *world) enableSnapshots() {
 	if !w.cfg.File {
 		return
 	}
+	// the M7 history: the holds of the set-up are granted, recorded and in the file
+	w.cpair = map[string]int{}
+	held := []string{}
+	for _, l := range common.SortedKeys(w.keys) {
+		for _, lk := range w.ls.Locks() {
+			if lk.Key() == w.keys[l] {
+				held = append(held, fmt.Sprint(w.pairLocked(lk.Name(), lk.Key())))
+			}
+		}
+	}
+	hs := "-"
+	if len(held) > 0 {
+		hs = strings.Join(held, ",")
+	}
+	w.cev = []string{"hist held=" + hs}
+	mine := map[int]bool{}
+	w.ls.VerifTrace(func(e server.VerifMgrEvent) {
+		m := map[string]string{"lock.TryLock": "lock.Grant", "lock.Lock": "lock.Grant", "lock.Unlock": "lock.Unlock", "sess.AddLock": "sess.AddLock", "sess.RemoveLock": "sess.RemoveLock"}[e.Method]
+		w.mu.Lock()
+		defer w.mu.Unlock()
+		if e.Phase == "inv" {
+			if m == "" {
+				return
+			}
+			mine[e.Id] = true
+			w.cev = append(w.cev, fmt.Sprintf("inv %d %s %d", e.Id, m, w.pairLocked(e.Name, e.Key)))
+			return
+		}
+		if mine[e.Id] {
+			ok := 0
+			if e.Ok {
+				ok = 1
+			}
+			w.cev = append(w.cev, fmt.Sprintf("ret %d %d", e.Id, ok))
+		}
+	})
 	verifrt.SnapHook = func(label string) {
 		b, err := os.ReadFile(w.statePath)
 		if err != nil {
@@ -403,6 +461,14 @@ func (w *world) enableSnapshots() {
 		}
 		w.mu.Lock()
 		defer w.mu.Unlock()
+		if e := len(b) == 0; e != w.cempty {
+			w.cempty = e
+			if e {
+				w.cev = append(w.cev, "trunc")
+			} else {
+				w.cev = append(w.cev, "write")
+			}
+		}
 		s := ackSnap{label: label, bytes: string(b)}
 		// another thread may be parked in the middle of the file rewrite at this instant
 		for _, n := range verifrt.Runnable() {
@@ -485,6 +551,9 @@ func finish(w *world, extra func()) conc.Outcome {
 	det["acks"] = w.acks
 	det["mgrtrace"] = append([]string{}, w.mgr...)
 	det["threadhist"] = append([]string{}, w.thist...)
+	if w.cev != nil {
+		det["crashhist"] = strings.Join(w.cev, "\n")
+	}
 	if w.smgr != nil {
 		st := []string{}
 		for _, n := range common.SortedKeys(w.smgr) {
@@ -779,7 +848,7 @@ func templates() []template {
 				},
 			}
 		}},
-		{name: "unlock||renew||expiry", props: []string{"C05", "C14"}, bound: 2, prog: func(t *testing.T) conc.Program {
+		{name: "unlock||renew||expiry", props: []string{"C05", "C14", "C04", "C02"}, bound: 2, prog: func(t *testing.T) conc.Program {
 			return conc.Program{
 				Setup: func() any {
 					w := newWorld(t, cfgFile(), "s1", "s2")
@@ -1027,7 +1096,7 @@ func templates() []template {
 				},
 			}
 		}},
-		{name: "expiry||unlock (crash images)", props: []string{"C09", "C14"}, bound: 2, prog: func(t *testing.T) conc.Program {
+		{name: "expiry||unlock (crash images)", props: []string{"C09", "C14", "C04", "C02"}, bound: 2, prog: func(t *testing.T) conc.Program {
 			// an Unlock racing the lease callback of the same hold: whichever answers, the file must not
 			// record the hold once the release is acknowledged
 			return conc.Program{
@@ -1046,7 +1115,17 @@ func templates() []template {
 				Ticks: []time.Duration{5 * time.Second},
 				Finish: func(c any) conc.Outcome {
 					w := c.(*world)
-					return finish(w, func() { crashMonitor(w, map[string]int{"x": 1, "z": 1}, true) })
+					return finish(w, func() {
+						crashMonitor(w, map[string]int{"x": 1, "z": 1}, true)
+						// the hold on x has ended one way or the other (Unlock answered, or its lease ran out): its unit is free
+						if p := common.Prop(); p == "C02" || p == "C04" {
+							time.Sleep(10 * time.Second)
+							synctest.Wait()
+							if free := w.probeFree("x", p32(1)); free != 1 {
+								w.v("conc:capacity:free-units", "lock \"x\" (size 1): its only hold was unlocked (answer: %s) and its 5 s lease has run out, but %d further TryLocks succeed instead of 1", w.summary(), free)
+							}
+						}
+					})
 				},
 			}
 		}},
@@ -1141,6 +1220,16 @@ func sessionEndMonitor(w *world, sid string, names []string, others map[string]s
 			}
 			if !foreign {
 				w.v("conc:session-end:hold-left:"+class, "after session %s ended and all its calls returned, lock %q is still held with key %s (granted to thread %q)", sid, n, l, owner)
+				// K2 leaves such a hold LISTED (the late AddLock re-creates the session entry). A hold that
+				// stays in the lock table and is in no session's listing either is a different defect: nobody,
+				// not even the admin tool by name, can find it
+				listed := false
+				for _, lk := range w.ls.Locks() {
+					listed = listed || lk.Name() == n && lk.Key() == k
+				}
+				if !listed {
+					w.v("conc:session-end:hold-left-unlisted:"+class, "after session %s ended and all its calls returned, lock %q is still held with key %s (granted to thread %q) and no session's listing shows it", sid, n, l, owner)
+				}
 			}
 		}
 	}
@@ -1540,6 +1629,7 @@ func TestConc(t *testing.T) {
 		traces := map[string]func() map[string]any{}  // distinct manager-call traces -> replay of the first schedule that produced it
 		straces := map[string]func() map[string]any{} // the same per observed hold of an ending session (M3b)
 		ttraces := map[string]func() map[string]any{} // Lock/TryLock/Unlock call histories per lock name (M1t)
+		ctraces := map[string]func() map[string]any{} // manager calls + file-image changes + answers (M7)
 		bound := tp.bound
 		if common.Thorough() {
 			bound++
@@ -1569,6 +1659,11 @@ func TestConc(t *testing.T) {
 					if _, seen := ttraces[k]; !seen {
 						ttraces[k] = rp
 					}
+				}
+			}
+			if ch, ok := r.Outcome.Detail["crashhist"].(string); ok && prop == "C09" && len(r.Panics) == 0 && !strings.HasSuffix(tp.name, "[open]") {
+				if _, seen := ctraces[ch]; !seen {
+					ctraces[ch] = rp
 				}
 			}
 			for _, p := range r.Panics {
@@ -1606,6 +1701,7 @@ func TestConc(t *testing.T) {
 		validateTraces(t, res, prop, tp.name, traces, "linlease", "lease", "the lease model M3a")
 		validateTraces(t, res, prop, tp.name, straces, "linsess", "session-end", "the session-end model M3b")
 		validateTraces(t, res, prop, tp.name, ttraces, "linthreads", "threads", "the threaded lock-table model M1t")
+		validateTraces(t, res, prop, tp.name, ctraces, "lincrash", "crash", "the crash model M7")
 		res.CountN("distinct-outcomes:"+tp.name, len(outcomes))
 		ks := common.SortedKeys(outcomes)
 		if len(ks) > 0 {
@@ -1657,6 +1753,8 @@ func relevant(prop, sig string) bool {
 		return strings.HasPrefix(sig, "conc:gc") || strings.HasPrefix(sig, "conc:capacity")
 	case "C14":
 		return strings.HasPrefix(sig, "conc:code")
+	case "C04":
+		return strings.HasPrefix(sig, "conc:truth:held-past-horizon") || strings.HasPrefix(sig, "conc:capacity:free-units")
 	}
 	return true
 }
